@@ -89,6 +89,69 @@ def minor_instance(r, gdesc, with_phase=None):
     return desc
 
 
+def crosswise_instance(r, gdesc):
+    """two copies of ONE catalogued minor allele that differ crosswise: copy one gained a silent variant v1, copy two a
+    different silent variant v2 - at one multi-allelic site (the two alternatives cannot sit on one copy), or at two sites
+    with read-phase evidence that shows them in trans. The planted assignment is admissible: fit error 0, two additions"""
+    gene, gid = instances.load_gene(gdesc)
+    from aldy.gene import CNConfigType, Mutation
+    if "1" not in gene.cn_configs or gene.cn_configs["1"].kind != CNConfigType.DEFAULT:
+        return None
+    majors = [a for a, al in gene.alleles.items() if al.cn_config == "1" and al.minors]
+    r.shuffle(majors)
+    silent = [m for m in gene.mutations if not gene.is_functional(m) and ">" in m[1] and len(m[1]) == 3]
+    for maj in majors:
+        for mino in sorted(gene.alleles[maj].minors, key=lambda mi: (-len(gene.alleles[maj].minors[mi].neutral_muts), mi)):
+            d_ = set(gene.alleles[maj].func_muts) | set(gene.alleles[maj].minors[mino].neutral_muts)
+            taken = {m.pos for m in d_}
+            # candidates must be considered variants: silent variants of the other minor alleles of this major allele
+            sib = {m for mi2, mo in gene.alleles[maj].minors.items() if mi2 != mino for m in mo.neutral_muts}
+            free = [m for m in silent if m[0] not in taken and gene.has_coverage(maj, m[0]) and Mutation(*m[:2]) in sib]
+            bypos = collections.defaultdict(list)
+            for m in free:
+                bypos[m[0]].append(m)
+            multi = [v for v in bypos.values() if len(v) >= 2]
+            same_site = bool(multi) and r.random() < 0.6
+            if same_site:
+                v1, v2 = r.sample(r.choice(multi), 2)
+            elif len(bypos) >= 2:
+                p1, p2 = r.sample(sorted(bypos), 2)
+                v1, v2 = r.choice(bypos[p1]), r.choice(bypos[p2])
+            else:
+                continue
+            depth = r.choice([10, 20, 30])
+            table = {}
+            for m in d_:
+                table[(m.pos, m.op)] = 2 * depth
+            for v in (v1, v2):
+                table[(v[0], v[1])] = depth
+            sites = {p for p, _ in table} | {m[0] for m in r.sample(list(gene.mutations), min(3, len(gene.mutations)))}
+            sites |= {m.pos for mo in gene.alleles[maj].minors.values() for m in mo.neutral_muts} | {m.pos for m in gene.alleles[maj].func_muts}
+            for pos in sites:
+                used = sum(c for (p_, o), c in table.items() if p_ == pos and o[:3] != "ins")
+                if 2 * depth - used > 0:
+                    table[(pos, "_")] = 2 * depth - used
+            frags = None
+            if not same_site or r.random() < 0.3:
+                frags = []
+                if not same_site:
+                    for _ in range(r.randint(3, 6)):
+                        frags.append({v1[0]: v1[1], v2[0]: "_"})
+                        frags.append({v1[0]: "_", v2[0]: v2[1]})
+                else:
+                    other = sorted(m.pos for m in d_)
+                    for _ in range(r.randint(2, 4)):
+                        if other:
+                            o = [m for m in d_ if m.pos == other[0]][0]
+                            frags.append({v1[0]: v1[1], o.pos: o.op})
+                            frags.append({v2[0]: v2[1], o.pos: o.op})
+            return {"gene": instances.gene_short(gdesc), "structure": ["1", "1"], "planted": [[maj, mino], [maj, mino]],
+                    "table": [[p_, o, [[60, 40, c]]] for (p_, o), c in sorted(table.items())], "profile": {},
+                    "fragments": [[[p_, o] for p_, o in f.items()] for f in frags] if frags is not None else None,
+                    "max_solutions": 1, "crosswise": [list(v1[:2]), list(v2[:2])]}
+    return None
+
+
 def build(desc):
     from aldy.coverage import Coverage
     from aldy.solutions import CNSolution
@@ -303,6 +366,97 @@ def oracle(real, desc):
     return why
 
 
+def slots_value(gene, call, cdefs, patterns, obs, positions, slots):
+    """objective of an assignment `slots` = [(major, (minor, kept, added, n_dropped))] whose copies each respect the per-copy rules;
+    None when it breaks a rule that couples the copies (rules 5, 6, read-phase attribution)"""
+    from aldy.gene import Mutation
+    cov, ms = call["cov"], call["major_sol"]
+    prof = cov.profile
+    muts = list(call["mutations"])
+    carriers = collections.Counter()
+    refc = collections.Counter()
+    pen = 0.0
+    novel = set()
+    for maj, (mino, kept, add, nmiss) in slots:
+        for m in kept | add:
+            carriers[m] += 1
+        pen += float(prof.minor_miss) * nmiss + float(prof.minor_add) * len(add)
+        for m in add:
+            if gene.is_functional(m) and m not in gene.alleles[maj].func_muts:
+                novel.add(m)
+        for p in positions:
+            if gene.has_coverage(maj, p):
+                refc[p] += 1 - sum(1 for m in kept | add if m.pos == p and m.op[:3] != "ins")
+    ok = True
+    for m in muts:
+        if (ms.cn_solution.position_cn(m.pos) == 0 or cov[m] == 0):
+            if carriers[m] > 0:
+                ok = False
+                break
+        elif not (1 <= carriers[m] <= cov[m]):
+            ok = False
+            break
+    if not ok:
+        return None
+    # rule 6: per site, (selectors an active copy has there) - (selectors it sets) summed over the active copies is
+    # bounded by max(copies at the site, reference reads, most selectors of any candidate copy); 0 where there are no copies
+    for p in positions:
+        tot = 0
+        for maj, (mino, kept, add, nmiss) in slots:
+            dd = cdefs[(maj, mino)]
+            n_sel = sum(1 for m in dd if m.pos == p) + sum(1 for m in muts if m.pos == p and m not in dd and gene.has_coverage(maj, m.pos))
+            tot += n_sel - sum(1 for m in kept | add if m.pos == p)
+        mx = max((sum(1 for m in dd if m.pos == p) + sum(1 for m in muts if m.pos == p and m not in dd and gene.has_coverage(maj2, m.pos))
+                  for (maj2, _mi), dd in cdefs.items()), default=0)
+        pc = ms.cn_solution.position_cn(p)
+        bound = 0 if pc == 0 else max(pc, cov[Mutation(p, "_")], mx)
+        if tot > bound:
+            ok = False
+            break
+    if not ok:
+        return None
+    err = sum(abs(obs[m] - carriers[m]) for m in muts) + sum(abs(obs[Mutation(p, "_")] - refc[p]) for p in positions)
+    val = err + pen + float(prof.minor_add) / 2 * len(novel)
+    if patterns:
+        ph = phase_term(gene, call, patterns, [(maj, cdefs[(maj, mino)], kept, add) for maj, (mino, kept, add, nmiss) in slots], cdefs)
+        if ph is None:
+            return None
+        val += ph
+    return val
+
+
+def planted_value(real, call, planted):
+    """objective of a given assignment [(major, minor, added variants)] with every definition variant kept, None if inadmissible"""
+    from aldy.gene import Mutation
+    gene = real["gene"]
+    cov, ms = call["cov"], call["major_sol"]
+    patterns = phase_patterns(call)
+    if patterns is None:
+        return None
+    cdefs = cand_defs(gene, call)
+    muts = list(call["mutations"])
+    positions = sorted({m.pos for m in muts})
+    obs = {}
+    for m in muts + [Mutation(p, "_") for p in positions]:
+        sc = cov.single_copy(m, ms.cn_solution)
+        obs[m] = cov[m] / sc if sc > 0 else 0
+    slots = []
+    for maj, mino, add in planted:
+        d = cdefs.get((maj, mino))
+        if d is None or any(not gene.has_coverage(maj, m.pos) for m in list(d) + list(add)) or any(m not in muts or m in d for m in add):
+            return None
+        allv = list(d) + list(add)
+        if max(collections.Counter(m.pos for m in allv).values(), default=0) > 1:
+            return None
+        slots.append((maj, (mino, frozenset(d), frozenset(add), 0)))
+    want = collections.Counter()
+    for sa, k in ms.solution.items():
+        want[sa.major] += k
+    if collections.Counter(maj for maj, _ in slots) != want:
+        return None
+    return slots_value(gene, call, cdefs, patterns, obs, positions, slots)
+
+
 def brute_force(real, call, limit=40000):
     """optimal objective by enumeration (read-phase disagreement included); None if too large or the patterns are down-sampled"""
     gene = real["gene"]
@@ -361,43 +515,9 @@ def brute_force(real, call, limit=40000):
         n_eval += 1
         if n_eval > limit * 5:
             return None
-        carriers = collections.Counter()
-        refc = collections.Counter()
-        pen = 0.0
-        novel = set()
-        for maj, (mino, kept, add, nmiss) in slots:
-            for m in kept | add:
-                carriers[m] += 1
-            pen += float(prof.minor_miss) * nmiss + float(prof.minor_add) * len(add)
-            for m in add:
-                if gene.is_functional(m) and m not in gene.alleles[maj].func_muts:
-                    novel.add(m)
-            for p in positions:
-                if gene.has_coverage(maj, p):
-                    refc[p] += 1 - sum(1 for m in kept | add if m.pos == p and m.op[:3] != "ins")
-        ok = True
-        for m in muts:
-            if (ms.cn_solution.position_cn(m.pos) == 0 or cov[m] == 0):
-                if carriers[m] > 0:
-                    ok = False
-                    break
-            elif not (1 <= carriers[m] <= cov[m]):
-                ok = False
-                break
-        if not ok:
+        val = slots_value(gene, call, cdefs, patterns, obs, positions, slots)
+        if val is None:
             continue
-        for p in positions:
-            tot = 0
-            mx = 0
-            for maj, (mino, kept, add, nmiss) in slots:
-                pass
-        err = sum(abs(obs[m] - carriers[m]) for m in muts) + sum(abs(obs[Mutation(p, "_")] - refc[p]) for p in positions)
-        val = err + pen + float(prof.minor_add) / 2 * len(novel)
-        if patterns:
-            ph = phase_term(gene, call, patterns, [(maj, cdefs[(maj, mino)], kept, add) for maj, (mino, kept, add, nmiss) in slots], cdefs)
-            if ph is None:
-                continue
-            val += ph
         if best is None or val < best:
             best = val
             brute_force.last = [(maj, mino, sorted(map(str, kept)), sorted(map(str, add))) for maj, (mino, kept, add, nmiss) in slots]
@@ -423,6 +543,17 @@ def tie(ctx):
         descs.append(ctx["replay"]["violation"]["input"])
     for fn, cj in lib.load_corpus(PID):
         descs.append(cj)
+    # directed class: two copies of one minor allele that differ crosswise (multi-allelic site / variants in trans)
+    n_cross = 0
+    import gen_gene
+    cross_pool = [{"kind": "generated", "genome": r.choice(["hg19", "hg38"]), "yaml": gen_gene.with_siblings(r, gen_gene.gen_gene(r))} for _ in range(8 if quick else 60)]
+    for j in range(3 * len(cross_pool)):
+        if n_cross >= (16 if quick else 160):
+            break
+        cw = crosswise_instance(r, cross_pool[j % len(cross_pool)])
+        if cw is not None:
+            descs.append(cw)
+            n_cross += 1
     while len(descs) < (200 if quick else 3000):
         descs.append(minor_instance(r, pool[len(descs) % len(pool)]))
     reqs, metas = [], []
@@ -468,6 +599,7 @@ def tie(ctx):
         stats["minor_calls"] += len(real["calls"])
         stats["no_major_solution"] += not real["major_sols"]
         stats["with_phase"] += d.get("fragments") is not None
+        stats["crosswise"] += "crosswise" in d
         for call in real["calls"]:
             stats["no_minor_solution"] += not call["result"]
             for s in call["result"]:
@@ -516,6 +648,15 @@ def tie(ctx):
                     stats["score_clause_with_phase"] += bool(phase_patterns(call))
                     if abs(sol.score - so) > 2e-3 + TOL:
                         violations.append({"why": f"reported score {sol.score} but the objective of the reported assignment (fit error + dropped/added/novel-core penalties + read-phase disagreement) is {so}", "input": d, "signature": "c04:score_not_objective"})
+                if "crosswise" in d:
+                    # the planted crosswise assignment is admissible: nothing reported may score above it
+                    from aldy.gene import Mutation as _M
+                    (mj, mi_), _ = d["planted"]
+                    pv = planted_value(real, call, [(mj, mi_, [_M(*d["crosswise"][0])]), (mj, mi_, [_M(*d["crosswise"][1])])])
+                    if pv is not None:
+                        stats["crosswise_planted_admissible"] += 1
+                        if sol.score > pv + 2e-3 + TOL:
+                            violations.append({"why": f"reported objective {sol.score} but the admissible assignment 2 x {mi_} with {d['crosswise'][0]} on one copy and {d['crosswise'][1]} on the other has objective {pv}", "input": d, "signature": "c04:not_optimal"})
                 bf = brute_force(real, call) if len(call["mutations"]) <= 7 else None
                 if bf is not None:
                     stats["optimality_checked"] += 1
